@@ -85,6 +85,7 @@ pub fn read_server_log(sim: &mut Sim) {
         // C06 floods the server with tens of thousands of frames: keep the harness's own log from growing
         sim.server.world_mut().resource_mut::<ServerLog>().0.clear();
         sim.server_log_pos = 0;
+        sim.server.world_mut().resource_mut::<DisconnectRequests>().0.clear();
     }
     for (kind, seq, sender, ent) in new {
         *sim.delivered_c.entry(seq).or_default() += 1;
